@@ -28,8 +28,18 @@ class _Temps(set):
     _pyvc_trusted = True
 
 
+_LAST = {}
+
 def _sf(vals):
-    return values.StringFunctions(_Temps())
+    sf = values.StringFunctions(_Temps())
+    _LAST['sf'] = sf
+    return sf
+
+
+def _no_temps(E):
+    """Every exit of a string function - result, empty result, error - releases its arguments:
+    an argument left registered as a temporary would be kept alive by the collector for good."""
+    E.prove(len(_LAST['sf']._temp_values) == 0, 'the arguments are no longer registered as temporaries')
 
 
 def _str(E, vals, n, tag):
@@ -53,6 +63,7 @@ def t_left_right(E, fn, L):
     c0 = _content(E, s)
     nobj, n = _int(E, vals, 'n')
     r = E.call(getattr(_sf(vals), fn), iter([s, nobj]))
+    _no_temps(E)
     if r.raised:
         E.cover('rejected')
         E.prove(r.is_error(BASICError, error.IFC), 'only Illegal function call')
@@ -78,6 +89,7 @@ def t_mid(E, L, with_num):
     else:
         nobj, n = None, L
     r = E.call(_sf(vals).mid_, iter([s, aobj, nobj]))
+    _no_temps(E)
     ok = And(a >= 1, a <= 255, n >= 0, n <= 255)
     if r.raised:
         E.cover('rejected')
@@ -105,6 +117,7 @@ def t_instr(E, LB, LS, with_start):
         a = 1
         args = [big, small]
     r = E.call(_sf(vals).instr_, iter(args))
+    _no_temps(E)
     if r.raised:
         E.prove(r.is_error(BASICError, error.IFC), 'only Illegal function call')
         E.prove(Or(a < 1, a > 255), 'only for a start outside 1..255')
